@@ -62,7 +62,16 @@ inductive Tok where
   | str (s : String)
   | ident (s : String)
   | param (s : String)
+  -- clause level (Model/C10Q.lean)
+  | kwMatch | kwWhere | kwReturn | kwDistinct | kwOrderBy | kwAsc | kwDesc | kwSkip | kwLimit
+  | kwSet | kwRemove | kwDelete | kwDetachDelete | kwCreate
+  | relOpen | relClose | pipe
 deriving DecidableEq, Repr, Inhabited
+
+/-- a token that ends a WHERE expression at clause level -/
+def Tok.endsExpr : Tok → Bool
+  | .kwReturn | .kwSet | .kwRemove | .kwDelete | .kwDetachDelete | .kwCreate => true
+  | _ => false
 
 /-- operands of comparisons: references, id()/toLower()/size()/labels()/type() calls, parameters, literals, list literals -/
 inductive Operand where
